@@ -515,6 +515,7 @@ def borrow (cfg : Cfg) (s : State) (u lendId pairId : Nat) (stable : Bool) (dIn 
   let rates ← orErr (cfg.rates? pair.assetIn) "rates not found"
   let _ ← orErr (cfg.asset? rates.cAsset) "asset does not exist"
   check (dIn == rates.cAsset) "bad offer coin type"
+  check (pair.assetIn == l.asset) "bad offer coin type"   -- the pledged cTokens must be those of the lend position named in the message
   -- `loanValue.LT(minUSDVal) || err != nil`
   match calcPrice cfg s.prices pair.assetOut aOut with
   | .error _ => .error "borrow less than min amount"
